@@ -2,6 +2,8 @@ mod bridge;
 mod world;
 mod sync;
 mod folder;
+mod epatch;
+mod auth;
 use hcommon::parse_cli;
 
 fn main() {
@@ -9,6 +11,8 @@ fn main() {
     match cli.domain.as_str() {
         "sync" => sync::run(&cli),
         "folder" => folder::run(&cli),
+        "epatch" => epatch::run(&cli),
+        "auth" => auth::run(&cli),
         "sched" => sync::run_sched(&cli),
         d => {
             eprintln!("unknown domain {d}");
